@@ -66,6 +66,14 @@ func runC08(c *sim.Ctx) *sim.Violation {
 		frame, fm = ref.Encode(a)
 		c.Count("frames.from-stub-encoder")
 	}
+	if t.Bool(1, 6) {
+		// a frame whose CONTENT is damaged (header truthful): the transport failure
+		// comes first all the same - a decoder cannot know the content is bad before
+		// it has the body, and what it must report is the failure E
+		frame = damageBody(t, frame)
+		fm = nil
+		c.Count("frames.content-damaged")
+	}
 	overlong := false
 	if t.Bool(1, 6) {
 		frame = overlongRL(frame, 1+t.Int(2)) // cut offsets inside a multi-byte header also for small frames
